@@ -114,6 +114,31 @@ def todo_messages() -> list[tuple[str, str]]:
     raise TranslatorError("translator cannot read the TODO message table of _create_todo_msg")
 
 
+def raised_todo_keys() -> tuple[list[str], int]:
+    """the keys passed to self._current_todo_msgs.add(...) anywhere in the generator: (string literals in source order without
+    repetition, number of sites whose argument is the variable `name` - the {Set, List} site of _create_type_string);
+    any other argument shape is refused"""
+    tree = _parse("stubs_generator/_stub_string_generator.py")
+    lits: list[str] = []
+    by_name = 0
+    for node in ast.walk(tree):
+        if (isinstance(node, ast.Call) and isinstance(node.func, ast.Attribute) and node.func.attr == "add"
+                and isinstance(node.func.value, ast.Attribute) and node.func.value.attr == "_current_todo_msgs"):
+            if len(node.args) != 1 or node.keywords:
+                raise TranslatorError("translator: unexpected call shape of _current_todo_msgs.add")
+            a = node.args[0]
+            if isinstance(a, ast.Constant) and isinstance(a.value, str):
+                if a.value not in lits:
+                    lits.append(a.value)
+            elif isinstance(a, ast.Name) and a.id == "name":
+                by_name += 1
+            else:
+                raise TranslatorError("translator: a TODO marker is raised with an argument that is neither a string literal nor `name`")
+    if not lits:
+        raise TranslatorError("translator cannot find the sites that raise TODO markers")
+    return lits, by_name
+
+
 def todo_prefix() -> str:
     tree = _parse("stubs_generator/_stub_string_generator.py")
     f = _find_func(tree, "_create_todo_msg") or tree
@@ -406,6 +431,9 @@ def generate() -> str:
     w(f"Definition t_indentation : str := {coq_str(indentation())}.")
     w("Definition t_todo_messages : list (str * str) := [" + "; ".join(f"({coq_str(k)}, {coq_str(v)})" for k, v in todo) + "].")
     w(f"Definition t_todo_prefix : str := {coq_str(todo_prefix())}.")
+    rk, by_name = raised_todo_keys()
+    w(f"Definition t_raised_todo_literals : list str := {coq_list(rk)}.")
+    w(f"Definition t_raised_todo_by_name_sites : nat := {by_name}.")
     w("Definition t_builtin_type_names : list (str * str) := [" + "; ".join(
         f"({coq_str(k)}, {coq_str(v)})" for k, v in builtin_type_names()) + "].")
     w(f"Definition t_none_type_name : str := {coq_str(none_type_name())}.")
